@@ -1230,3 +1230,99 @@ Qed.
 
 Theorem content_lines_join ls : Forall (fun l => ~ In c_nl l) ls -> content_lines (join_lines ls) = flat_map line_content ls.
 Proof. intros H. unfold content_lines. rewrite split_lines_join by assumption. reflexivity. Qed.
+
+(* ------------------------------------------------------------------------------------------- *)
+(* trees flatten to well-nested piece lists *)
+Lemma tokens_of_app a b : tokens_of (a ++ b) = tokens_of a ++ tokens_of b.
+Proof. unfold tokens_of. rewrite map_app, concat_app. reflexivity. Qed.
+
+Fixpoint node_balanced (n : node) : forall stk rest,
+  balanced_from stk (tokens_of (flatten n) ++ rest) = balanced_from stk rest.
+Proof.
+  destruct n as [l|nm w1 w2 body|nm w]; intros stk rest.
+  - reflexivity.
+  - cbn [flatten]. change (POpen nm w1 :: flat_map flatten body ++ [PClose nm w2]) with ([POpen nm w1] ++ flat_map flatten body ++ [PClose nm w2]).
+    rewrite !tokens_of_app, <- !app_assoc. cbn [tokens_of map concat piece_tokens app balanced_from].
+    assert (L : forall b r, balanced_from (nm :: stk) (tokens_of (flat_map flatten b) ++ r) = balanced_from (nm :: stk) r).
+    { induction b as [|x b IHb]; intros r; [reflexivity|]. cbn [flat_map]. rewrite tokens_of_app, <- app_assoc, node_balanced. apply IHb. }
+    rewrite L. cbn [app balanced_from]. rewrite bytes_eqb_refl. reflexivity.
+  - cbn. rewrite bytes_eqb_refl. reflexivity.
+Qed.
+
+Theorem flatten_doc_balanced d : balanced (tokens_of (flatten_doc d)) = true.
+Proof.
+  unfold balanced, flatten_doc. rewrite <- (app_nil_r (tokens_of _)).
+  induction d as [|n d IH]; [reflexivity|]. cbn [flat_map]. rewrite tokens_of_app, <- app_assoc, node_balanced. exact IH.
+Qed.
+
+
+(* ------------------------------------------------------------------------------------------- *)
+(* a concrete document satisfying every hypothesis of the theorems above, and the theorems applied to it *)
+Definition ex_text : list atom :=
+  map ARaw (raw " k = v1 "%hex) ++ [ACrLf] ++ map ARaw (raw "#c"%hex) ++ [ARaw 10] ++
+  map ARaw (raw "k=a"%hex) ++ [AEnt (raw "amp"%hex) 38] ++ map ARaw (raw "b=c ]"%hex) ++ [AEnt (raw "gt"%hex) 62; ARaw 10].
+Definition ex_doc : list piece :=
+  [POpen (raw "a"%hex) [32]; PText ex_text; PEmpty (raw "b.1"%hex) []; PClose (raw "a"%hex) [10];
+   PText (map ARaw (raw "top=1"%hex))].
+
+Ltac solve_ok := repeat (split || constructor); try reflexivity; try (intros HH; discriminate HH);
+                 try (intros [HH1 HH2]; discriminate).
+
+Example ex_doc_ok : doc_ok ex_doc.
+Proof. unfold doc_ok. split; [|split]; solve_ok. Qed.
+
+Example ex_short : short_lines (tokens_of ex_doc).
+Proof.
+  intros t seg Hin Hseg. vm_compute in Hin.
+  repeat (destruct Hin as [Hin|Hin]; [first [discriminate Hin | injection Hin as <-; vm_compute in Hseg;
+    repeat (destruct Hseg as [<-|Hseg]; [vm_compute; reflexivity|]); contradiction]|]).
+  contradiction.
+Qed.
+
+Example ex_no_clobber : no_clobber (piece_events ex_doc).
+Proof.
+  intros K l Hin Hk HL. vm_compute in Hin.
+  repeat (destruct Hin as [Hin|Hin]; [first [discriminate Hin | injection Hin as <- <-;
+    destruct HL as [HL|HL]; [vm_compute in HL; discriminate HL|vm_compute in HL; repeat (destruct HL as [HL|HL]; [discriminate HL|]); contradiction]]|]).
+  contradiction.
+Qed.
+
+(* end to end through the theorems: the document is accepted and /a<k> is the last written value "a&b=c ]>" *)
+Example ex_end_to_end : exists t, parse (render ex_doc) = Ok t /\
+  get_string_def t (raw "/a<k>"%hex) [] = Ok (raw "a&b=c ]>"%hex) /\
+  get_domain_line t (raw "/a"%hex) = Ok [raw "k = v1"%hex; raw "k=a&b=c ]>"%hex] /\
+  get_int_def t (raw "<top>"%hex) 7%Z = Ok 1%Z.
+Proof.
+  destruct (rendered_represented ex_doc ex_doc_ok ex_short ex_no_clobber) as (t & Hp & R). exists t. split; [exact Hp|].
+  assert (P1 : analysis_path (raw "/a<k>"%hex) = Ok [raw "a"%hex; raw "k"%hex]).
+  { apply (analysis_path_key [raw "a"%hex] (raw "k"%hex)); solve_ok; try (intros [HH|HH]; [discriminate|contradiction]).
+    - exists 107, []. split; [reflexivity|discriminate].
+    - exists [], 107. split; [reflexivity|discriminate]. }
+  assert (P2 : analysis_path (raw "/a"%hex) = Ok [raw "a"%hex]).
+  { apply (analysis_path_domain [raw "a"%hex]); solve_ok; try (intros [HH|HH]; [discriminate|contradiction]). }
+  assert (P3 : analysis_path (raw "<top>"%hex) = Ok [raw "top"%hex]) by reflexivity.
+  split; [|split].
+  - destruct (value_exact _ _ R _ _ P1 [raw "a"%hex] (raw "k"%hex) eq_refl) as (H & _); [discriminate|vm_compute; discriminate|].
+    rewrite H. vm_compute. reflexivity.
+  - rewrite (lines_exact _ _ R _ _ P2); [vm_compute; reflexivity|]. right. vm_compute. left. reflexivity.
+  - destruct (value_exact _ _ R _ _ P3 [] (raw "top"%hex) eq_refl) as (_ & H & _); [discriminate|vm_compute; discriminate|].
+    rewrite H. vm_compute. reflexivity.
+Qed.
+
+Example ex_kv_line : content_line (raw "  locator = tars.tarsregistry.QueryObj@tcp -h 10.0.0.1 -p 17890	 "%hex)
+   = Some (raw "locator = tars.tarsregistry.QueryObj@tcp -h 10.0.0.1 -p 17890"%hex)
+  /\ line_kv (raw "locator = tars.tarsregistry.QueryObj@tcp -h 10.0.0.1 -p 17890"%hex)
+   = (raw "locator"%hex, raw "tars.tarsregistry.QueryObj@tcp -h 10.0.0.1 -p 17890"%hex).
+Proof.
+  destruct (kv_line_read (raw "  "%hex) (raw "locator"%hex) (raw " "%hex) (raw " "%hex)
+    (raw "tars.tarsregistry.QueryObj@tcp -h 10.0.0.1 -p 17890"%hex) [9; 32]) as (H1 & H2 & _);
+    try (solve_ok; fail).
+  - split; [split|]; try solve_ok; try (intros HH; vm_compute in HH; repeat (destruct HH as [HH|HH]; [discriminate|]); contradiction).
+    + exists 108, (raw "ocator"%hex). split; reflexivity.
+    + exists (raw "locato"%hex), 114. split; reflexivity.
+  - right. split; [split|split].
+    + exists 116, (raw "ars.tarsregistry.QueryObj@tcp -h 10.0.0.1 -p 17890"%hex). split; reflexivity.
+    + exists (raw "tars.tarsregistry.QueryObj@tcp -h 10.0.0.1 -p 1789"%hex), 48. split; reflexivity.
+    + intros HH; vm_compute in HH; repeat (destruct HH as [HH|HH]; [discriminate|]); contradiction.
+    + intros HH; vm_compute in HH; repeat (destruct HH as [HH|HH]; [discriminate|]); contradiction.
+Qed.
